@@ -1274,6 +1274,11 @@ func collectTextNodes(parent *Inline, r *inlineByteReader, end int, textKind Inl
 			}
 		}
 
+		if r.pos >= end {
+			// A backslash was the last byte of the range:
+			// the byte after it has already been stepped over.
+			break
+		}
 		if !r.next() {
 			break
 		}
